@@ -248,6 +248,24 @@ func runC10(rc *RunCtx) {
 			}
 		}
 	}
+	// keyless module accounts (authority, gov, the module itself, ...) and remarkable addresses are ordinary outsiders
+	if rc.Shard == 1%rc.NShards {
+		if e, err := StdEngine(rc, false, false, nil); err == nil {
+			e.Exec(Tx{Msgs: msgs1(&ct.MsgUpdateOwner{From: e.M.Owner, NewOwner: Acct(OtherIx)}), Note: "C10 special submitters: a pending owner exists"})
+			for ti, at := range adminTypes {
+				for si, sp := range SpecialAccounts() {
+					tx := Tx{Msgs: msgs1(at.Make(e.M, sp, ti+si)), Note: "C10 " + at.Name + " by a module account / remarkable address"}
+					r := e.Exec(tx)
+					rc.Cov.Assert("C10.special-submitters-unauthorised")
+					rc.Cov.Cell("C10_special_submitters", fmt.Sprintf("%s/%v", at.Name, map[bool]string{true: "ok", false: "fail"}[r.OK]))
+					if r.OK {
+						e.viol([]string{"C10"}, "authorisation-oracle", fmt.Sprintf("C10:%s:special-submitter:ok", at.Name),
+							fmt.Sprintf("%s succeeded for submitter %s, which holds no role", at.Name, sp), e.caseOf(&tx, ""))
+					}
+				}
+			}
+		}
+	}
 	// previous holder immediately after each kind of role update; and an upper-case spelled outsider
 	if rc.Shard == 0 {
 		for ui := 0; ui < 5; ui++ {
@@ -504,6 +522,27 @@ func runC11(rc *RunCtx) {
 	rc.Cov.Extra["exhaustive"] = true
 	rc.Cov.Sample(map[string]interface{}{"universe_accounts": U, "state_shape": "(owner, pending|none, attester manager, pauser, token controller)",
 		"actions_per_state": "every role transaction x every submitter x every new holder, accept by every account, one representative of the other 20 types"})
+	// role transactions submitted by keyless module accounts and remarkable addresses, with and without a pending owner
+	if rc.Shard == 2%rc.NShards {
+		for pend := 0; pend < 2; pend++ {
+			e, err := StdEngine(rc, false, false, nil)
+			if err != nil {
+				continue
+			}
+			e.LightQueries = true
+			if pend == 1 {
+				e.Exec(Tx{Msgs: msgs1(&ct.MsgUpdateOwner{From: e.M.Owner, NewOwner: Acct(OtherIx)}), Note: "C11 special submitters: pending owner"})
+			}
+			for si, sp := range SpecialAccounts() {
+				nw := Acct(si % NAccounts)
+				for _, m := range []sdk.Msg{&ct.MsgUpdateOwner{From: sp, NewOwner: nw}, &ct.MsgAcceptOwner{From: sp}, &ct.MsgUpdateAttesterManager{From: sp, NewAttesterManager: nw},
+					&ct.MsgUpdatePauser{From: sp, NewPauser: nw}, &ct.MsgUpdateTokenController{From: sp, NewTokenController: nw}, &ct.MsgUpdateOwner{From: sp, NewOwner: sp}} {
+					r := e.Exec(Tx{Msgs: msgs1(m), Note: "C11 role transaction by a module account / remarkable address"})
+					rc.Cov.Cell("C11_transitions", "special-submitter:"+shapeMsg(m)+"/"+map[bool]string{true: "ok", false: "fail"}[r.OK])
+				}
+			}
+		}
+	}
 	// lifecycle starts in which genesis leaves some roles without a holder: they stay blank (queries, export) until the
 	// owner - if there is one - assigns them; the same closure of role transactions is applied from each such start
 	for blank := 1; blank < 16; blank++ {
@@ -809,7 +848,29 @@ func runC13(rc *RunCtx) {
 				continue
 			}
 			states++
+			byTx := si%3 == 0 // the state is reached by transactions from a genesis without attesters and without a threshold
 			mk := func() *Engine {
+				if byTx {
+					e, err := StdEngine(rc, false, false, func(gs *ct.GenesisState, cfg *chain.Config) {
+						gs.AttesterList = nil
+						gs.SignatureThreshold = nil
+					})
+					if err != nil {
+						rc.Cov.Inconclusive(err.Error())
+						return nil
+					}
+					am := e.M.AM
+					for _, k := range keys {
+						e.Exec(Tx{Msgs: msgs1(&ct.MsgEnableAttester{From: am, Attester: AttesterPool[k].Spell(k % 4)}), Note: "C13 bootstrap from an empty attester set"})
+					}
+					if dup {
+						e.Exec(Tx{Msgs: msgs1(&ct.MsgEnableAttester{From: am, Attester: AttesterPool[keys[0]].Spell((keys[0] + 1) % 4)}), Note: "C13 bootstrap from an empty attester set"})
+					}
+					e.Exec(Tx{Msgs: msgs1(&ct.MsgUpdateSignatureThreshold{From: am, Amount: uint32(t)}), Note: "C13 bootstrap threshold"})
+					rc.Cov.Cell("C13_start_built", "by-transactions-from-empty-genesis")
+					return e
+				}
+				rc.Cov.Cell("C13_start_built", "by-genesis")
 				e, err := StdEngine(rc, false, false, func(gs *ct.GenesisState, cfg *chain.Config) {
 					gs.AttesterList = nil
 					for _, k := range keys {
